@@ -6,6 +6,7 @@
   Origin and offset have ANY number of digits (up to CPython's 4300-digit `int()` limit).
 -/
 import JP.Lemmas.RelPointer
+import JP.Generated.Tables
 namespace JP.Props.C16
 open JP JP.Pointer JP.RelPointer JP.Lemmas
 
@@ -32,6 +33,12 @@ theorem rel_refusals (r : RelSpec) (base : List Str) :
           isCanonNat last = true ∧ (digitsVal last : Int) + r.offset < 0) ∨
        (r.hash = true ∧ r.origin ≤ base.length ∧ base.take (base.length - r.origin) = [])) := by
   exact Lemmas.rel_refusals r base
+
+/-- **Translated tables** (regenerated from pointer.py on every run): the relative-pointer pattern and the
+    index-token pattern in the source are the ones `reMatch` / `parseIndexToken` model. -/
+theorem source_tables_ok :
+    Generated.reRelativePointer = "(?P<ORIGIN>[0-9]+)(?P<INDEX_G>(?P<SIGN>[+\\-])(?P<INDEX>[0-9]+))?(?P<POINTER>.*)" ∧
+    Generated.reIndexToken = "(?:0|-?[1-9][0-9]*)" := by decide
 
 /-! ### Non-vacuity -/
 example : specText ⟨1, -12, false, ["a/b".toList, "é".toList]⟩ = "1-12/a~1b/é".toList := by decide
